@@ -129,7 +129,7 @@ Proof.
     eapply WF_bank_only; [eapply bank_pay_only; eassumption|].
     eapply WF_bank_only; [eapply bank_mint_only; eassumption|].
     destruct W. constructor; simpl; try assumption. apply keys_set_NoDup. assumption.
-  - unfold do_set_params in H. inv_if H. inversion H. destruct W. constructor; simpl; assumption.
+  - unfold do_set_params in H. inv_if H. inv_if H. inversion H. destruct W. constructor; simpl; assumption.
   - inversion H. destruct W. constructor; simpl; assumption.
   - apply do_hook_inv in H. destruct H as (sym0 & t & s2 & _ & _ & _ & _ & _ & _ & Hm & Hp).
     eapply WF_bank_only; [eapply bank_pay_only; eassumption|].
@@ -233,7 +233,7 @@ Definition c09_msg (m : msg) : Prop :=
   match m with
   | Issue owner _ _ _ _ _ _ _ => ordinary owner
   | Mint owner _ _ _ => ordinary owner
-  | Edit _ _ _ _ _ | Burn _ _ _ | Transfer _ _ _ | SetParams _ _ _ _ _ _ => True
+  | Edit _ _ _ _ _ | Burn _ _ _ | Transfer _ _ _ | SetParams _ _ _ _ _ _ _ => True
   | _ => False
   end.
 
@@ -314,7 +314,7 @@ Proof.
       eexists. split; [reflexivity|]. right. split; [assumption|]. simpl. repeat split; congruence.
     + exists t. split; [assumption|left; reflexivity].
   - (* SetParams *)
-    unfold do_set_params in E. inv_if E. inversion E. exists t. split; [assumption|left; reflexivity].
+    unfold do_set_params in E. inv_if E. inv_if E. inversion E. exists t. split; [assumption|left; reflexivity].
 Qed.
 
 (** *** what a C09 message does to supplies *)
@@ -389,7 +389,7 @@ Proof.
   - apply burn_supply in E. destruct E as (Hamt & HS). left. rewrite HS.
     pose proof (ind_nonneg (eqb (t_minunit t) denom) amt Hamt). lia.
   - apply do_transfer_inv in E. destruct E as (t0 & _ & _ & _ & ->). left. unfold supply_of. simpl. lia.
-  - unfold do_set_params in E. inv_if E. inversion E. left. unfold supply_of. simpl. lia.
+  - unfold do_set_params in E. inv_if E. inv_if E. inversion E. left. unfold supply_of. simpl. lia.
 Qed.
 
 (** ** the clauses of [holds_C09] on the model's observations *)
